@@ -1,6 +1,8 @@
 (* C01 — Sat ranges follow the ordinal-theory first-in-first-out assignment.
    Only statements, closed by [exact] or a few lines of glue, with Print Assumptions.
-   Impl = Index/SatIndex.v [run] (updater.rs with --index-sats, one UTXO map);
+   Impl = Index/SatIndex.v [run] (updater.rs with --index-sats, one UTXO map) and Index/SatCache.v
+   [run2 sched] (the same with utxo_cache in front of the table and commits after any subset of the
+   blocks; this is what the extracted entry point runs), tied by C01_except;
    Spec = [bip_run], the transcription of the Python of bip.mediawiki over flat lists of sats. *)
 From OrdV Require Import Base.Prelude Generated Index.SatIndex Index.SatCache Proofs.SatIndex_proofs Proofs.SatCache_proofs.
 
